@@ -20,7 +20,7 @@ pub fn def() -> PropDef {
 }
 
 fn streams(t: Tier) -> Vec<StreamDef> {
-    vec![st("flagwords", t.n(65536, 65536 * 4, 60, 65536), true), st("hostile", t.n(40_000, 2_000_000, 40, 10_000), false), st("threads", t.n(64, 1600, 1, 64), false), st("big", t.n(200, 4000, 0, 200), false)]
+    vec![st("flagwords", t.n(65536, 65536 * 4, 60, 65536), true), st("hostile", t.n(40_000, 2_000_000, 40, 10_000), false), st("threads", t.n(64, 1600, 1, 64), false), st("big", t.n(200, 4000, 0, 200), false), st("vendor_grid", t.n(wire::VENDOR_GRID, wire::VENDOR_GRID, 0, wire::VENDOR_GRID), true)]
 }
 
 fn floors(t: Tier) -> Vec<(String, u64)> {
@@ -241,6 +241,11 @@ fn thread_case(ctx: &mut Ctx) {
 
 fn run(ctx: &mut Ctx) {
     match ctx.stream {
+        "vendor_grid" => {
+            let idx = ctx.idx;
+            let b = wire::vendor_grid_case(&mut ctx.rng, idx);
+            judge(ctx, &b);
+        }
         "threads" => thread_case(ctx),
         "big" => {
             // inputs of more than 64 KiB: an option may not make the size of the buffer matter
